@@ -223,7 +223,8 @@ PROPS = {
         "namespace": "NutsModel.C16",
         "theorems": ["preset_flat_some", "names_nodup_dec", "names_nodup", "lookup_own", "getAll_names_aligned",
                      "optional_known_dec", "nonevent_optional", "nonevent_always_or_never", "divergence_fields_dec",
-                     "event_fields_iff_event"],
+                     "event_fields_iff_event", "event_classified_dec", "event_field_present_only_on_event",
+                     "identifying_fields_declared_dec"],
         "harness": "C16",
         "level": "proof",
         "rule": ("all six presets x store_* flag combinations (all off, all on, random) x dimensions {0,1,2,3,17} x fault regimes (none, "
